@@ -2,8 +2,8 @@ package s0175
 
 
 type T struct {
-	F0 int32
-	F1 *int64
+	F0 *int32
+	F1 []int64
 	F2 uint32
-	F3 *uint64
+	F3 uint64
 }
